@@ -296,12 +296,25 @@ def jobs(tier):
         for cl in CLAUSES:
             js.append(Job(f"{cl}/n4/r1/{'-'.join(map(str, S))}", job_clause, dict(n=4, rounds=1, settings=S, clause=cl, timeout_s=300), cl, 400))
     if tier == "thorough":
-        for rounds in (1, 2):
-            for cl in CLAUSES:
-                if cl == "documented_count":
-                    continue     # with symbolic settings the sum-vs-sum equality is not decided (unknown); concrete settings below
-                js.append(Job(f"{cl}/n4/r{rounds}/symbolic-settings", job_clause,
-                              dict(n=4, rounds=rounds, settings=None, clause=cl, timeout_s=1500), cl, 1700, weight=10))
+        # all admissible settings at once (symbolic): only these two clauses are decided for the three-day league (measured: the
+        # other clauses and every six-day query end in solver timeouts / unknown and are not claimed)
+        for cl in ("feasible_implies_zero", "inconsistent_positive"):
+            js.append(Job(f"{cl}/n4/r1/symbolic-settings", job_clause, dict(n=4, rounds=1, settings=None, clause=cl, timeout_s=1500), cl, 1700, weight=10))
+        # instead: the grid of settings of the three-day league - streak limits 1 <= min <= max <= 3 for home and away, five
+        # separation windows - each clause over all plans
+        done = {tuple(S) for _, S in distinct} | {(2, 3, 1, 3, 1, 3), (1, 2, 3, 3, 0, 2), (3, 3, 1, 2, 2, 3)}
+        for hm in (1, 2, 3):
+            for hx in range(hm, 4):
+                for am in (1, 2, 3):
+                    for ax in range(am, 4):
+                        for sm, sx in ((0, 0), (0, 2), (1, 1), (1, 2), (2, 2)):
+                            S = (hm, hx, am, ax, sm, sx)
+                            if S in done:
+                                continue
+                            for cl in CLAUSES:
+                                if cl == "documented_count":
+                                    continue
+                                js.append(Job(f"{cl}/n4/r1/{'-'.join(map(str, S))}", job_clause, dict(n=4, rounds=1, settings=S, clause=cl, timeout_s=600), cl, 700))
         # documented count for six days: all 12^6 day-wise consistent plans without byes (the property's quantifier), split over
         # the first two days; plus extreme concrete settings for the three-day league
         nrows = len(day_rows(4, False))
@@ -322,7 +335,8 @@ def jobs(tier):
 def meta(tier):
     return dict(
         bounds=dict(teams=[2, 4], rounds=[1, 2], plan_entries="-n..n (all values, self-play where in range)",
-                    settings="quick: settings of the shipped four-team instances plus three asymmetric settings (home/away limits differ, tight separation) for the single round robin; thorough: additionally all admissible "
-                             "settings (symbolic, 1<=min<=max<=rounds*n-1)"),
+                    settings="quick: settings of the shipped four-team instances plus three asymmetric settings (home/away limits differ, tight separation) for the single round robin; thorough: additionally the grid of "
+                             "all streak limits 1<=min<=max<=3 (home and away independently) x five separation windows for the three-day league (180 settings), two clauses for all admissible settings at once (symbolic), "
+                             "and the documented count on all 12^6 day-wise consistent six-day plans without byes"),
         outside=["n >= 6", "rounds >= 3", "plans on which count_errors leaves its arrays (C13)"],
         assumptions=ASSUMPTIONS, stubs=STUBS)
